@@ -101,14 +101,26 @@ func c06Spray(r *ev.Result, calls int) {
 		mu.Unlock()
 		bcancel()
 		bpw.Close()
-		<-done
+		select {
+		case <-done:
+		case <-time.After(hworld.Watchdog):
+			if "" == problem {
+				problem = fmt.Sprintf("/io request number %d has not ended %v after its context was cancelled", n+1, hworld.Watchdog)
+			}
+		}
 	}
 	close(release)
 	cancel()
 	apw.Close()
-	<-aDone
-	wg.Wait()
-	close(och)
+	select {
+	case <-aDone:
+		wg.Wait()
+		close(och)
+	case <-time.After(hworld.Watchdog):
+		if "" == problem {
+			problem = "the first request has not ended after its context was cancelled and its stream closed"
+		}
+	}
 	r.Add(n)
 	r.Traces += n
 	r.Set("io_requests_next_to_a_half_attached_one", n)
